@@ -196,9 +196,95 @@ def rule_nested_globals(ctx, rep, rid: str) -> None:
             rep.bad(rid, key, f"the interpreter built in {f.qual} does not run on the context's globals: definitions made there are lost (or never visible)", loc)
 
 
+def _deadline_adopters(ctx) -> List[Func]:
+    """Interpreter methods that install the RUNNING interpreter's deadline callback on a regex object:
+    `<x>.set_poll_callback(self.<factory>())` (or an assignment to its callback attribute) with a deadline factory
+    of the same class (sa/rules/limits.deadline_factory)."""
+    from .limits import deadline_factory
+
+    vmcls = ctx.facts.vm_dispatcher()[0].cls
+    out = []
+    for m in vmcls.all_methods:
+        for n in m.own_nodes():
+            arg = None
+            if isinstance(n, ast.Call) and isinstance(n.func, ast.Attribute) and "poll_callback" in n.func.attr and n.args:
+                arg = n.args[0]
+            if isinstance(n, ast.Assign) and any(isinstance(tg, ast.Attribute) and "poll_callback" in tg.attr for tg in n.targets):
+                arg = n.value
+            if isinstance(arg, ast.Call) and isinstance(arg.func, ast.Attribute) and norm(arg.func.value) == "self":
+                fac = ctx.tree.find_method(vmcls, arg.func.attr)
+                if fac is not None and deadline_factory(ctx, fac):
+                    out.append(m)
+    return list({id(x): x for x in out}.values())
+
+
 def rule_no_stale_deadline(ctx, rep, rid: str) -> None:
-    rep.rule(rid, "a deadline closure handed to an object that outlives the eval (a script-visible RegExp) does not capture the interpreter of the eval that created it", floor=2)
+    rep.rule(rid, "a deadline closure handed to an object that outlives the eval (a script-visible RegExp) does not capture the interpreter of the eval that created it -- or every interpreter that runs the object's matcher installs its own deadline on it first", floor=2)
     js = ctx.tree.class_named("JSRegExp")
+    adopters = _deadline_adopters(ctx)
+    aids = {id(a) for a in adopters}
+    # every script-reachable run of a script-held regex goes through an adopter first
+    unadopted: List[Tuple[Func, ast.AST]] = []
+    n_runs = 0
+    if adopters:
+        loops = {id(f) for f, _ in ctx.facts.matcher_loops()}
+        sr = ctx.facts.script_reachable()
+        cache: Dict[int, bool] = {}
+
+        def reaches(fn) -> bool:
+            if id(fn) not in cache:
+                cache[id(fn)] = any(x in loops for x in ctx.cg.reach([fn]))
+            return cache[id(fn)]
+
+        for cs in ctx.cg.sites:
+            f = cs.func
+            if f.module.name.startswith("regex") or f.cls is js or id(f) not in sr or id(f) in aids:
+                continue
+            if cs.kind not in ("resolved", "byname"):
+                continue
+            tg = [x for x in cs.targets if (x.module.name.startswith("regex") or (x.cls is not None and x.cls.name == "JSRegExp")) and x.name != "__init__"]
+            if not tg or not any(reaches(x) for x in tg):
+                continue
+            recv = cs.call.func.value if isinstance(cs.call.func, ast.Attribute) else None
+            if not isinstance(recv, ast.Name):
+                continue
+            # where does the receiver come from?  a fresh engine object built here is bound at construction
+            defs = [n for n in f.own_nodes() if isinstance(n, ast.Assign) and any(isinstance(t_, ast.Name) and t_.id == recv.id for t_ in n.targets)]
+            origin = recv.id
+            hops = 0
+            while defs and hops < 3:
+                hops += 1
+                v = defs[-1].value
+                if isinstance(v, ast.Call) and isinstance(v.func, ast.Attribute) and v.func.attr == "_create_vm" and isinstance(v.func.value, ast.Name):
+                    origin = v.func.value.id
+                    defs = [n for n in f.own_nodes() if isinstance(n, ast.Assign) and any(isinstance(t_, ast.Name) and t_.id == origin for t_ in n.targets)]
+                    continue
+                break
+            n_runs += 1
+            ok = False
+            defs = [n for n in f.own_nodes() if isinstance(n, ast.Assign) and any(isinstance(t_, ast.Name) and t_.id == origin for t_ in n.targets)]
+            script_held = not defs  # a closure variable / parameter: a RegExp object the script holds
+            for d in defs:
+                v = d.value
+                if isinstance(v, ast.Call):
+                    c2 = ctx.cg.site_of_call.get(id(v))
+                    if c2 and any(id(t_) in aids for t_ in c2.targets):
+                        ok = True  # obtained through the adopter
+                    elif c2 and c2.ext and c2.ext.startswith("class:"):
+                        ok = True  # constructed here with this interpreter's callback (C01-R4 checks the argument)
+                    else:
+                        script_held = True
+                else:
+                    script_held = True  # e.g. pattern._internal
+            if not ok and script_held:
+                # an adopter call on the same object earlier in the function?
+                for n in f.own_nodes():
+                    if isinstance(n, ast.Call) and n.lineno <= cs.call.lineno:
+                        c2 = ctx.cg.site_of_call.get(id(n))
+                        if c2 and any(id(t_) in aids for t_ in c2.targets) and n.args and norm(n.args[0]) == origin:
+                            ok = True
+            if not ok:
+                unadopted.append((f, cs.call))
     for cs in ctx.cg.sites:
         if cs.ext != "class:" + js.qual:
             continue
@@ -214,6 +300,12 @@ def rule_no_stale_deadline(ctx, rep, rid: str) -> None:
             if isinstance(n, ast.Assign) and any(isinstance(tg, ast.Name) and tg.id == arg.id for tg in n.targets):
                 v = n.value
                 fn = f.children.get(v.id) if isinstance(v, ast.Name) else (ctx.tree.func_of_node.get(id(v)) if isinstance(v, ast.Lambda) else None)
+                if fn is None and isinstance(v, ast.Call):
+                    # a deadline factory of an interpreter: its closure captures that interpreter
+                    c2 = ctx.cg.site_of_call.get(id(v))
+                    if c2 and c2.targets:
+                        stale = (c2.targets[0].name, norm(v.func.value) if isinstance(v.func, ast.Attribute) else "?")
+                    continue
                 if fn is None:
                     continue
                 for x in fn.own_nodes():
@@ -221,15 +313,26 @@ def rule_no_stale_deadline(ctx, rep, rid: str) -> None:
                         base = norm(x.value)
                         if "_current_vm" not in base:
                             stale = (fn.name, base)
-        if stale:
-            rep.bad(rid, key, f"the deadline closure {stale[0]} reads {stale[1]}.start_time of the interpreter that was running when the regex was created; a regex kept in a global and used by a later eval is judged against the old eval's deadline (spurious TimeLimitError, or no limit)", loc)
+        if stale and adopters and not unadopted:
+            rep.ok(rid, key, {"captures": stale[1], "but": f"every one of the {n_runs} script-reachable matcher runs re-installs the running interpreter's deadline first ({', '.join(a.name for a in adopters)})"})
+        elif stale:
+            extra = ""
+            if adopters and unadopted:
+                uf, uc = unadopted[0]
+                extra = f"; {uf.qual} runs the matcher ({short(uc, 40)}) without installing its own deadline first"
+            rep.bad(rid, key, f"the deadline closure {stale[0]} reads {stale[1]}.start_time of the interpreter that was running when the regex was created; a regex kept in a global and used by a later eval is judged against the old eval's deadline (spurious TimeLimitError, or no limit){extra}", loc)
         else:
             rep.ok(rid, key)
+    if adopters:
+        for uf, uc in unadopted:
+            rep.bad(rid, f"{uf.qual}:{short(uc, 40)}:unadopted", f"{uf.qual} runs the matcher of a RegExp the script holds ({short(uc, 40)}) without installing the running interpreter's deadline on it first: the regex is measured against the eval that created it", f"{uf.module.rel}:{uc.lineno}")
+        if not unadopted:
+            rep.ok(rid, "matcher-runs:adopted", {"runs": n_runs})
 
 
 # ------------------------------------------------------------------------ C15
 def rule_clock_rng_allowlist(ctx, rep, rid: str) -> None:
-    rep.rule(rid, "the clock and the random generator are read only by Date.now, Math.random, the limit check, the functions that stamp the deadline and the deadline closures", floor=6)
+    rep.rule(rid, "the clock and the random generator are read only by Date.now, Math.random, the limit check, the functions that stamp the deadline and the deadline closures", floor=4)
     lc = ctx.facts.limit_check()
     natives = {id(v[0]): v[1] for v in ctx.cg.natives.values()}
     for f in ctx.tree.funcs:
